@@ -977,7 +977,7 @@ pub fn run(args: &Args, report: &Report) -> (&'static str, bool, Vec<&'static st
 
     if !node_replay {
         let shards = args.by_tier(16usize, 32);
-        let sessions = args.by_tier(14usize, 60);
+        let sessions = args.by_tier(20usize, 60);
         let blocks = args.by_tier(12u32, 16);
         let c = ctx.clone();
         for_each_session(args, report, shards, sessions, move |case, rng| run_session(&c, case, rng, blocks));
@@ -989,25 +989,31 @@ pub fn run(args: &Args, report: &Report) -> (&'static str, bool, Vec<&'static st
     }
 
     if replaying.is_none() && ctx.selftest == 0 {
-        let q = |quick: u64, thorough: u64| args.by_tier(quick, thorough);
-        report.require("c36.blocks", q(2000, 20000));
-        report.require("c36.nontrivial_blocks", q(1200, 12000));
-        report.require("c36.events.coin_consumed.base", q(4000, 40000));
-        report.require("c36.events.coin_consumed.other", q(300, 3000));
-        report.require("c36.events.coin_created.other", q(300, 3000));
-        report.require("c36.events.message_imported.retryable", q(150, 1500));
-        report.require("c36.events.message_imported.non_retryable", q(150, 1500));
-        report.require("c36.events.message_consumed.retryable", q(60, 600));
-        report.require("c36.events.message_consumed.non_retryable", q(150, 1500));
-        report.require("c36.coins_created_and_spent_in_same_block", q(400, 4000));
-        report.require("c36.zero_amount_outputs_in_executed_txs", q(1000, 10000));
-        report.require("c36.readview.balance_nonzero", q(10000, 100000));
-        report.require("c36.readview.owned_coins_listed", q(50000, 500000));
-        report.require("c36.readview.owned_messages_listed", q(5000, 50000));
-        report.require("c36.readview.coins_to_spend", q(2000, 20000));
-        report.require("c36.node.blocks", q(8, 30));
-        report.require("c36.node.txs_in_blocks", q(15, 60));
-        report.require("c36.node.readview.balance_nonzero", q(100, 400));
+        // observed at quick seed 1 (16 shards x 20 sessions x 12 blocks): about 2.5x the figures below
+        let k = args.by_tier(1u64, 6);
+        for (key, min) in [
+            ("c36.blocks", 2800u64),
+            ("c36.nontrivial_blocks", 1700),
+            ("c36.events.coin_consumed.base", 8000),
+            ("c36.events.coin_consumed.other", 500),
+            ("c36.events.coin_created.other", 800),
+            ("c36.events.message_imported.retryable", 600),
+            ("c36.events.message_imported.non_retryable", 600),
+            ("c36.events.message_consumed.retryable", 500),
+            ("c36.events.message_consumed.non_retryable", 600),
+            ("c36.coins_created_and_spent_in_same_block", 800),
+            ("c36.zero_amount_outputs_in_executed_txs", 5000),
+            ("c36.readview.balance_nonzero", 25000),
+            ("c36.readview.owned_coins_listed", 100000),
+            ("c36.readview.owned_messages_listed", 14000),
+            ("c36.readview.coins_to_spend", 4000),
+        ] {
+            report.require(key, min * k);
+        }
+        let n = args.by_tier(1u64, 3);
+        report.require("c36.node.blocks", 8 * n);
+        report.require("c36.node.txs_in_blocks", 15 * n);
+        report.require("c36.node.readview.balance_nonzero", 100 * n);
     }
     (RULE, false, assumptions())
 }
